@@ -119,7 +119,8 @@ def _slice_kernels():
             if v is None:
                 v = np.zeros((0, 3))
             try:
-                return Polyline(v, is_closed=closed).sliced_by_plane(Plane(r, m)).v
+                res = Polyline(v, is_closed=closed).sliced_by_plane(Plane(r, m))
+                return (res.v, res.is_closed)
             except ValueError:
                 return 1
             except IndexError:
@@ -140,11 +141,11 @@ def _slice_kernels():
         head = ("Definition xrow_coords (x : xrow R) : list R := match x with XPt v => vlist v | XNan => [] end.\n"
                 "Ltac nz := repeat split; first [apply Rgt_not_eq; lra | apply Rlt_not_eq; lra].\n"
                 "Ltac posnat := repeat match goal with |- context [Pos.to_nat ?p] => let k := eval compute in (Pos.to_nat p) in change (Pos.to_nat p) with k end.\n")
-        evalm = ("  unfold sliced_by_plane, slice_any, slice_closed, closed_roll, slice_core.\n"
+        evalm = ("  unfold sliced_polyline, sliced_by_plane, slice_any, slice_closed, closed_roll, slice_core.\n"
                  "  cbn -[crossing_row plane_sign]. do 8 (rewrite %s; posnat; cbn -[crossing_row plane_sign]).\n" % rew)
         if exp is None:
             lemma = (head + "Lemma {T}_ok : forall {vars} : R, {T}_path ROps {vars} ->\n"
-                     "  sliced_by_plane ROps %s %s = Raise ValueError.\n"
+                     "  sliced_polyline ROps %s %s = Raise ValueError.\n"
                      "Proof. intros {vars} Hpath. unfold {T}_path in Hpath. cbv zeta in Hpath. rops. path_facts Hpath.\n"
                      "%s\n%s\n%s  reflexivity. Qed." % (PL, poly, "\n".join(sd_facts), "\n".join(sign_facts), evalm))
             lemma = lemma.replace("forall  : R, ", "").replace("intros  Hpath", "intros Hpath")
@@ -153,7 +154,7 @@ def _slice_kernels():
             rows = ["XPt %s" % V[e[1]] if e[0] == "v" else "XPt (crossing %s %s %s)" % (PL, V[e[1]], V[e[2]]) for e in exp]
             rows = "[%s]" % "; ".join(rows)
             lemma = (head + "Lemma {T}_ok : forall {vars} : R, {T}_path ROps {vars} ->\n"
-                     "  sliced_by_plane ROps %s %s = Ok %s /\\\n  {T} ROps {vars} = flat_map xrow_coords %s.\n"
+                     "  sliced_polyline ROps %s %s = Ok (MkSliced %s false) /\\\n  {T} ROps {vars} = flat_map xrow_coords %s.\n"
                      "Proof. intros {vars} Hpath. unfold {T}_path in Hpath. cbv zeta in Hpath. rops. path_facts Hpath.\n"
                      "%s\n%s\n  split.\n  {\n%s"
                      "    rewrite ?crossing_row_is_point by (first [left; split; assumption | right; split; assumption]). reflexivity. }\n"
@@ -162,7 +163,8 @@ def _slice_kernels():
                      "  cbv [flat_map xrow_coords app vlist vadd vscale vsub vdot vx vy vz pref pnormal plane_sd sd_eq plane_equation eq_normal ea eb ec ed]; rops.\n"
                      "  list_eq ltac:(first [reflexivity | ring | (field; nz)]). Qed."
                      % (PL, poly, rows, rows, "\n".join(sd_facts), "\n".join(sign_facts), evalm))
-            expect = None
+            # structure of the returned value, fail-closed: a (k,3) array of expressions and the flag False (open)
+            expect = {"tuple": [{"shape": [len(exp), 3], "data": ["e"] * (3 * len(exp))}, False]}
         inputs = {"v": vs, "r": ref, "m": nrm} if n else {"r": ref, "m": nrm}
         ks.append(Kernel(name, inputs, call, lemma, perturb=(0.0 if "O" in pat else 1e-9), expect_structure=expect, validate_n=4,
                          imports=IMPORTS + [("PW.proofs", "P_plane"), ("PW.proofs", "P_polyline_slice")]))
@@ -416,10 +418,8 @@ def coq_case(c, o):
         return "CXsect %s %s %s %s %s" % (qv(c["start"]), qv(c["seg"]), qv(c["ref"]), qv(c["normal"]), flv(o["row"]))
     if "raise" in o:
         obs = "(Raise %s)" % o["raise"]
-    elif o["is_closed"]:
-        obs = "(Raise OtherError)"  # a closed result never agrees with the model
     else:
-        obs = "(Ok %s)" % coq_list(flv(r) for r in o["v"])
+        obs = "(Ok (OSlice %s %s))" % (coq_list(flv(r) for r in o["v"]), coq_bool(o["is_closed"]))
     pl = "(MkPlane %s %s)" % (qv(c["ref"]), qv(c["normal"]))
     return "CSlice %s %s %s %s %s" % (coq_bool(c["exact"]), coq_bool(c["closed"]), pl, coq_list(qv(p) for p in c["v"]), obs)
 
